@@ -30,6 +30,14 @@ static std::vector<Plan> PLANS = {
     {"disjunction", "predicate V() : Interval { duration >= 1.0; { goal w = new W(end: start); } or { goal u = new U(end: start); } } predicate W() : Interval { duration >= 1.0; start >= 1.0; } predicate U() : Interval { duration >= 2.0; start >= 1.0; } goal v = new V();", 10},
     {"fractional", "predicate V() : Interval { duration >= 1.0; } goal v = new V(); goal w = new V(); v.start >= 4.5; w.start >= 4.5; v.duration <= 3.0; w.end >= 6.25;", 12},
     {"constants", "predicate V() : Interval { } fact f = new V(start: 1.0, end: 3.0); goal g = new V(); g.start >= 2.0; g.duration >= 1.0;", 8},
+    // a resource that forces an ordering between two uses (a delay of the first must push the second)
+    {"rr-two-uses", "ReusableResource r = new ReusableResource(2.0); goal u = new r.Use(amount: 2.0); goal w = new r.Use(amount: 1.0); u.duration >= 2.0; w.duration >= 2.0; u.start >= 1.0;", 10},
+    // three atoms chained on one state variable
+    {"sv-chain3", "class S : StateVariable { predicate A() { duration >= 1.0; } } S s = new S(); goal a = new s.A(); goal b = new s.A(); goal c = new s.A(); a.start >= 1.0; a.end <= b.start; b.end <= c.start;", 10},
+    // two atoms on different state variables tied together by equalities
+    {"sv-tied", "class S : StateVariable { predicate A() { duration >= 2.0; } } S s1 = new S(); S s2 = new S(); goal a = new s1.A(); goal b = new s2.A(); a.start >= 1.0; b.start == a.start; b.end == a.end;", 9},
+    // an agent with an impulse followed by an interval
+    {"agent", "class G : Agent { predicate N() : Impulse { } predicate W() : Interval { duration >= 1.0; } } G ag = new G(); goal n = new ag.N(); goal w = new ag.W(); n.at >= 2.0; w.start >= n.at;", 9},
 };
 
 struct Point
@@ -55,7 +63,8 @@ struct Env : executor_listener
   std::vector<std::string> problems; // monitor violations: "key|message"
   std::map<const atom *, int> n_start, n_end;
   std::map<const atom *, inf_rational> start_val, end_val; // values frozen at start / end
-  std::set<const atom *> delayed_in_this_tick;             // atoms whose delay was requested in the current tick() call
+  std::set<const atom *> delayed_in_this_tick;             // atoms whose start was delayed in the current tick() call and that have not been re-notified since
+  std::set<const atom *> end_delayed_in_this_tick;         // the same for dont_end_yet / ending()
   std::set<const atom *> failed;
   bool in_tick = false;
   rational tick_time;
@@ -104,6 +113,10 @@ struct Env : executor_listener
     for (auto a : v)
       names += nm(a) + " ";
     log.push_back("starting " + names);
+    // the client is consulted (again) about these atoms: an earlier delay request of this tick() call has been
+    // honoured by moving them; with coarse ticks the moved time may still lie within the current tick
+    for (auto a : v)
+      delayed_in_this_tick.erase(a);
     int c = choose(1 + 2 * (int)v.size(), "starting " + names);
     if (c > 0)
     {
@@ -121,6 +134,8 @@ struct Env : executor_listener
     for (auto a : v)
       names += nm(a) + " ";
     log.push_back("ending " + names);
+    for (auto a : v)
+      end_delayed_in_this_tick.erase(a);
     int c = choose(1 + 2 * (int)v.size(), "ending " + names);
     if (c > 0)
     {
@@ -128,7 +143,7 @@ struct Env : executor_listener
       rational d((c - 1) % 2 + 1);
       log.push_back("  dont_end_yet " + nm(a) + " +" + rs(d));
       ex.dont_end_yet({{a, d}});
-      delayed_in_this_tick.insert(a);
+      end_delayed_in_this_tick.insert(a);
     }
   }
   void start(const std::unordered_set<atom *> &as) override
@@ -141,7 +156,7 @@ struct Env : executor_listener
       if (n_end.count(a))
         problem("C19:start-after-end", nm(a) + " started after it had ended");
       if (delayed_in_this_tick.count(a) && !slv.is_impulse(*a))
-        problem("C19:started-in-the-tick-that-delayed-it", nm(a) + " was started in the same tick() call in which the client asked to delay it");
+        problem("C19:started-in-the-tick-that-delayed-it", nm(a) + " was started in the same tick() call in which the client asked to delay it, without being asked again");
       arith_expr s = slv.is_impulse(*a) ? a->get(RATIO_AT) : a->get(RATIO_START);
       inf_rational sv = slv.arith_value(s);
       if (sv > inf_rational(ex.get_current_time()))
@@ -156,6 +171,8 @@ struct Env : executor_listener
       log.push_back("end " + nm(a));
       if (++n_end[a] > 1)
         problem("C19:atom-ended-twice", nm(a) + " ended " + std::to_string(n_end[a]) + " times");
+      if (end_delayed_in_this_tick.count(a) && !slv.is_impulse(*a))
+        problem("C19:ended-in-the-tick-that-delayed-it", nm(a) + " was ended in the same tick() call in which the client asked to delay its end, without being asked again");
       if (!n_start.count(a))
         problem("C19:end-without-start", nm(a) + " ended but was never started");
       arith_expr e = slv.is_impulse(*a) ? a->get(RATIO_AT) : a->get(RATIO_END);
@@ -207,6 +224,7 @@ struct Env : executor_listener
           problem("C19:started-atom-moved", when + ": impulse " + nm(a) + " dispatched at " + irs(start_val[a]) + " but is now at " + irs(at));
       }
     }
+    check_capacity(when, act);
     // state variables: no two active atoms on the same instance overlap
     for (size_t i = 0; i < act.size(); ++i)
       for (size_t j = i + 1; j < act.size(); ++j)
@@ -225,6 +243,27 @@ struct Env : executor_listener
         if (s < e)
           problem("C19:adapted-plan-overlaps-on-state-variable", when + ": " + nm(a) + " and " + nm(b) + " overlap");
       }
+  }
+  // reusable resources: at every start pulse the active uses of an instance fit its capacity
+  void check_capacity(const std::string &when, const std::vector<atom *> &act)
+  {
+    for (atom *a : act)
+    {
+      if (!slv.is_interval(*a) || a->get_type().get_name() != "Use" || static_cast<type &>(a->get_type().get_scope()).get_name() != "ReusableResource")
+        continue;
+      inf_rational t = slv.arith_value(a->get(RATIO_START));
+      inf_rational sum(rational::ZERO);
+      for (atom *b : act)
+        if (slv.is_interval(*b) && &b->get_type() == &a->get_type() && &*b->get(TAU) == &*a->get(TAU) && slv.arith_value(b->get(RATIO_START)) <= t && t < slv.arith_value(b->get(RATIO_END)))
+        {
+          arith_expr am = b->get("amount");
+          sum += slv.arith_value(am);
+        }
+      arith_expr cap_x = a->get(TAU)->get("capacity");
+      inf_rational cap = slv.arith_value(cap_x);
+      if (sum > cap)
+        problem("C19:adapted-plan-exceeds-capacity", when + ": at time " + irs(t) + " the active uses need " + irs(sum) + " of capacity " + irs(cap));
+    }
   }
   void collect(predicate &p, std::vector<atom *> &act)
   {
@@ -293,7 +332,9 @@ static ExecOut execute_in_arena(const Plan &plan, const rational &upt, const std
   int k = 0;
   try
   {
-    for (k = 0; k < plan.horizon_ticks; ++k)
+    // the horizon is given in time units: the number of ticks scales with units_per_tick
+    const int n_ticks = (int)((plan.horizon_ticks * upt.denominator() + upt.numerator() - 1) / upt.numerator());
+    for (k = 0; k < n_ticks; ++k)
     {
       // between ticks: optionally report the failure of one running atom
       std::vector<atom *> running;
@@ -316,6 +357,7 @@ static ExecOut execute_in_arena(const Plan &plan, const rational &upt, const std
       }
       rational before = ex.get_current_time();
       env.delayed_in_this_tick.clear();
+      env.end_delayed_in_this_tick.clear();
       ex.tick();
       if (ex.get_current_time() - before != upt)
         env.problem("C19:time-step-is-not-one-tick", "tick() moved the current time from " + rs(before) + " to " + rs(ex.get_current_time()) + " with " + rs(upt) + " units per tick");
@@ -513,6 +555,8 @@ int main(int argc, char **argv)
   bool exhaustive = true;
   std::string levels = "[";
   std::vector<rational> upts = {rational(1), rational(1, 2)};
+  if (th)
+    upts.push_back(rational(2));
   for (size_t pi = 0; pi < PLANS.size(); ++pi)
     for (auto &u : upts)
     {
@@ -523,7 +567,7 @@ int main(int argc, char **argv)
       }
       g_plan = (int)pi;
       g_upt = u;
-      g_bound = th ? 3 : 2;
+      g_bound = (int)args.num("bound", th ? 4 : 3);
       uint64_t before = vf::st().sink.counters["executions"];
       vf::RunResult rr = vf::run_units(UNITS, run_unit, opt);
       exhaustive = exhaustive && rr.exhaustive;
